@@ -651,7 +651,13 @@ impl Store {
                     Bound::Included(ctx_id.as_bytes().to_vec())
                 };
 
-                let end_key = Bound::Excluded(idx_context_key_range_end(ctx_id));
+                // the range end saturates for the last possible context id: nothing sorts
+                // after that context's keys, so its range is open-ended
+                let end_key = if ctx_id.to_u128() == u128::MAX {
+                    Bound::Unbounded
+                } else {
+                    Bound::Excluded(idx_context_key_range_end(ctx_id))
+                };
 
                 Box::new(
                     self.idx_context
